@@ -26,7 +26,14 @@ SCENARIO = {
     '/ctxfalsy': ('GET', 'full', False),
     # two pages that carry the same application-chosen ETag (a revision tag) with different bodies
     '/wiki/1': ('GET', 'full', True), '/wiki/2': ('GET', 'full', True),
+    # responses that declare no Content-Type at all: a 204, an application-made 304, a body relayed from an upstream that named no type
+    '/notype204': ('GET', 'full', False), '/notype304': ('GET', 'full', False), '/notype': ('GET', 'full', False),
 }
+# Cookie headers a client may send whatever the application is (only the signed-cookie middleware looks at them): its cookie's
+# name with values that are not what it issued
+COOKIES = [None, None, None, 'clastic_cookie=abc?x=1', 'clastic_cookie=a?b', 'clastic_cookie=?', 'clastic_cookie="AAAA?a=b&c"',
+           'clastic_cookie=bm90IGEgdGFn?a=MQ==', 'clastic_cookie=kHLTV5Ysb6V8J5y4kU5cG3VfYr?user=ImFkbWluIg==', 'other=1; clastic_cookie=caf\xe9?\xe9=1',
+           'clastic_cookie=no-separator', 'clastic_cookie=====?a=====']
 
 
 def body_for(kind, n):
@@ -103,6 +110,13 @@ def build_app(mws):
         r.set_etag('rev-3')
         return r
 
+    def notype(status, body):
+        def f():
+            r = Response(body, status=status)
+            del r.headers['Content-Type']
+            return r
+        return f
+
     def download(request):
         import io
         from werkzeug.wsgi import wrap_file
@@ -117,7 +131,8 @@ def build_app(mws):
             'postdata': lambda: __import__('clastic.middleware.form', fromlist=['x']).PostDataMiddleware(['p']), 'scriptroot': lambda: __import__('clastic.middleware.url', fromlist=['x']).ScriptRootMiddleware()}
     routes = [('/ok', ok), ('/bin', binr), ('/empty', empty), ('/ctx', ctx, render_basic), ('/redir', redir),
               ('/raise404', raise404), ('/ret403', ret403), ('/ret503long', ret503long), ('/nb', nb), ('/boom', boom), ('/js', js),
-              ('/stream', stream), ('/pre', pre), ('/vary_accept', vary_accept), ('/vary_cookie', vary_cookie), ('/download', download), ('/ctxfalsy', ctxfalsy, render_basic), ('/wiki/<n:int>', wiki), POST('/postonly', ok), ('/size/<n:int>/<kind>', sized)]
+              ('/stream', stream), ('/pre', pre), ('/vary_accept', vary_accept), ('/vary_cookie', vary_cookie), ('/download', download), ('/ctxfalsy', ctxfalsy, render_basic), ('/wiki/<n:int>', wiki),
+              ('/notype204', notype(204, b'')), ('/notype304', notype(304, b'')), ('/notype', notype(200, b'upstream bytes ' * 100)), POST('/postonly', ok), ('/size/<n:int>/<kind>', sized)]
     return Application(routes, middlewares=[inst[m]() for m in mws])
 
 
@@ -128,6 +143,8 @@ def send(app, rq):
         headers['Accept-Encoding'] = rq['ae']
     if rq['ua'] is not None:
         headers['User-Agent'] = rq['ua']
+    if rq.get('cookie') is not None:
+        headers['Cookie'] = rq['cookie']
     r = wsgi.call(app, wsgi.environ(rq['path'], method=rq['method'], query=rq.get('query', ''), headers=headers))
     ce = r.header('Content-Encoding')
     body, bad = r.body, None
@@ -233,7 +250,8 @@ def gen_case(rng, tier):
                                     rng.choice(['text', 'random']))
             method = 'GET'
         reqs.append({'path': path, 'method': method, 'ae': rng.choice(ACCEPT_ENCODINGS), 'ua': rng.choice(AGENTS),
-                     'query': rng.choice(['', 'q=1', 'x=y&q=z', '_prof_sort=tottime', '_prof=&_prof_sort=calls', '_prof_sort='])})
+                     'query': rng.choice(['', 'q=1', 'x=y&q=z', '_prof_sort=tottime', '_prof=&_prof_sort=calls', '_prof_sort=']),
+                     'cookie': rng.choice(COOKIES)})
     if 'stats' in mws:
         reqs = reqs + [dict(r) for r in reqs[:6]] + [dict(r) for r in reqs[:6]]      # the same route and status again and again
         return {'mws': mws, 'requests': reqs, 'small_stores': rng.random() < 0.7}
